@@ -61,11 +61,67 @@ theorem manipulatorToString_eq (m : Manipulator) (src dst : Var) (args : List Va
     cases dst.pointer <;> cases m.isDstPtr <;> cases src.pointer <;> cases m.isSrcPtr <;>
     simp [hp] <;> str_eq
 
+/-- what the additional-argument loop of `FuncToString` writes, starting at index `k` -/
+def argsText (f : Function) (k : Nat) (l : List Var) : String :=
+  if (Nat.blt 0 k || f.receiver == "") || f.dstVarStyle == DstVarStyle.arg then
+    concatMap (fun a => ", " ++ param a) l
+  else match l with
+    | [] => ""
+    | a :: as => param a ++ concatMap (fun a => ", " ++ param a) as
+
+/-- the loop exactly as the translator emits it -/
+theorem gen_args_loop (f : Function) (l : List Var) (k : Nat) :
+    concatMapIdxFrom (fun i args => ((if (((Nat.blt 0 i) || (f.receiver == "")) || (f.dstVarStyle == DstVarStyle.arg))
+        then ", " else "") ++ args.name ++ " " ++ (Generated.Var.fullType args))) k l = argsText f k l := by
+  induction l generalizing k with
+  | nil => simp [concatMapIdxFrom, argsText]
+  | cons a as ih =>
+    simp only [concatMapIdxFrom]
+    rw [ih (k + 1)]
+    have hk : Nat.blt 0 (k + 1) = true := by simp [Nat.blt]
+    unfold argsText
+    simp only [hk, Bool.true_or, ↓reduceIte, concatMap_cons, var_fullType, param]
+    cases hc : ((Nat.blt 0 k || f.receiver == "") || f.dstVarStyle == DstVarStyle.arg) <;>
+      simp [String.append_assoc]
+
+theorem joinSep_cons (x : String) (xs : List String) :
+    joinSep ", " (x :: xs) = x ++ concatMap (fun s => ", " ++ s) xs := by
+  induction xs generalizing x with
+  | nil => simp [joinSep]
+  | cons y ys ih => simp [joinSep, ih, String.append_assoc]
+
+theorem concatMap_map {α : Type} (g : α → String) (h : String → String) (l : List α) :
+    concatMap h (l.map g) = concatMap (fun a => h (g a)) l := by
+  induction l with
+  | nil => rfl
+  | cons a as ih => simp [ih]
+
+/-- the separator logic equals a `", "`-join of the parameter list -/
+theorem params_eq (f : Function) :
+    (if f.dstVarStyle == DstVarStyle.arg then
+        f.dst.name ++ " *" ++ f.dst.ptrLessFullType ++ (if f.receiver == "" then ", " else "")
+      else "") ++
+    (if f.receiver == "" then f.src.name ++ " " ++ f.src.fullType else "") ++ argsText f 0 f.additionalArgs =
+    joinSep ", " (sigParams f) := by
+  unfold argsText sigParams
+  have hb : Nat.blt 0 0 = false := rfl
+  by_cases hr : f.receiver = ""
+  · cases hs : f.dstVarStyle <;>
+      simp [hr, hb, joinSep_cons, concatMap_map, param, String.append_assoc]
+  · cases hs : f.dstVarStyle
+    · -- receiver, return style: no parameter precedes the additional arguments
+      cases hl : f.additionalArgs with
+      | nil => simp [hr, hb, joinSep]
+      | cons a as => simp [hr, hb, joinSep_cons, concatMap_map, param, String.append_assoc]
+    · simp [hr, hb, joinSep_cons, concatMap_map, param, String.append_assoc]
+
 theorem funcToString_eq (f : Function) : Generated.funcToString f = funcToString f := by
   have h : (fun it => Generated.assignmentToString f it) = assignmentToString f := by
     funext a; exact assignmentToString_eq f a
-  simp only [Generated.funcToString, funcToString, docLines, sigHead, sigTail, optManip, bodyAssignments,
-    funcTail, var_fullType, var_ptrLessFullType, h]
+  unfold Generated.funcToString concatMapIdx
+  rw [gen_args_loop]
+  simp only [funcToString, docLines, sigHead, ← params_eq, sigTail, optManip, bodyAssignments, funcTail,
+    var_fullType, var_ptrLessFullType, h]
   cases f.preProcess <;> cases f.postProcess <;> cases f.dstVarStyle <;> cases f.dst.pointer <;>
     cases f.retError <;> by_cases hr : f.receiver = "" <;>
     simp [hr, manipulatorToString_eq] <;> str_eq
